@@ -15,6 +15,12 @@ import (
 
 // parseThrift parses the generated IDL with the real parser and returns the root type descriptor.
 func parseThrift(w *W, sch *TSchema, po thrift.Options) *thrift.TypeDescriptor {
+	d, _ := parseThriftFn(w, sch, po)
+	return d
+}
+
+// parseThriftFn also returns the function descriptor (response type with the exception field).
+func parseThriftFn(w *W, sch *TSchema, po thrift.Options) (*thrift.TypeDescriptor, *thrift.FunctionDescriptor) {
 	svc, err := po.NewDescritorFromContent(context.Background(), "sim.thrift", sch.IDL, nil, false)
 	if err != nil {
 		w.Failf("harness-idl", nil, "generated IDL does not parse: %v\n%s", err, sch.IDL)
@@ -25,7 +31,7 @@ func parseThrift(w *W, sch *TSchema, po thrift.Options) *thrift.TypeDescriptor {
 	}
 	root := fn.Request().Struct().FieldById(1).Type()
 	syncAliases(w, sch.Root, root, map[*TStruct]bool{})
-	return root
+	return root, fn
 }
 
 // syncAliases cross-checks the member keys the harness believes it declared against what the real
@@ -277,8 +283,9 @@ func runJ2T(w *W, cv *j2t.BinaryConv, desc *thrift.TypeDescriptor, js []byte, en
 	var res j2tOutcome
 	// logical-step budget: the re-entry loop between Go and the native state machine passes a yield per
 	// round (handleError); a conversion that does not converge is a violation, not a hung worker
+	savedLimit := w.World.StepLimit
 	w.World.StepLimit = w.World.Steps + uint64(300*len(js)) + 100000
-	defer func() { w.World.StepLimit = 0 }()
+	defer func() { w.World.StepLimit = savedLimit }()
 	res.Facts = map[string]string{"api": "Do"}
 	if !env.DoInto {
 		out, err := cv.Do(ctx, desc, in.B)
